@@ -3,6 +3,7 @@ package main
 // Engine core: value layout, heaps, fresh names, integer encodings.
 
 import (
+	"sync"
 	"fmt"
 	"go/constant"
 	"go/token"
@@ -79,6 +80,7 @@ type Obligation struct {
 	TimeS   float64
 	Stage   string // qf | quant
 	Model   string
+	replay  *replayInfo
 	QFile   string
 	Answers map[string]string
 	nDecl, nAssert, nQ, nReads int
@@ -111,6 +113,20 @@ type Prelude struct {
 type assertRec struct {
 	text   string
 	origin *ssa.BasicBlock
+	cache  *readCache
+}
+
+// readCache: the element-level selects of one assertion, parsed once and
+// shared by all the queries that include the assertion.
+type readCache struct {
+	once  sync.Once
+	reads []rawRead
+}
+
+type rawRead struct {
+	arrAtom string // the array is a symbol
+	inner   string // the array is (select H inner)
+	idx     string
 }
 
 // assertBuf records every prelude assertion together with the block of the
@@ -126,13 +142,13 @@ func (a *assertBuf) WriteString(s string) {
 	if a.cur != nil {
 		o = *a.cur
 	}
-	a.recs = append(a.recs, assertRec{s, o})
+	a.recs = append(a.recs, assertRec{s, o, &readCache{}})
 }
 func (a *assertBuf) Len() int { return len(a.recs) }
 
 // WriteGlobal records a fact that is emitted once and must be visible to every
 // query (axioms about declared-once symbols).
-func (a *assertBuf) WriteGlobal(s string) { a.recs = append(a.recs, assertRec{s, nil}) }
+func (a *assertBuf) WriteGlobal(s string) { a.recs = append(a.recs, assertRec{s, nil, &readCache{}}) }
 
 type State struct {
 	H     map[string]string // heap name -> current SMT term (a declared constant)
@@ -179,6 +195,10 @@ type Eng struct {
 	unmodelled     map[string]bool
 	inlined        map[string]bool
 	usedExterns    map[string]bool
+	world          *World
+	roles          map[*ssa.Function]string
+	extraReach     []*Obligation
+	replay         *replayInfo
 	usedContracts  map[string]bool
 	curPos         token.Pos
 	safetyCounter  map[string]int
@@ -188,6 +208,7 @@ type Eng struct {
 	errOutOfSubset error
 	curOrigin      *ssa.BasicBlock
 	specMath       int
+	mapUpds        []mapUpd
 	weakB2I        bool
 }
 
